@@ -55,6 +55,21 @@ def format_parts(body, e):
     if e.k != "call":
         return None
     name = e.a[0]
+    # the same concatenation spelled `[a, b, c].concat()`
+    if name.endswith("::concat") and len(e.a[1]) == 1:
+        arr = strip_refs(e.a[1][0])
+        while arr.k == "cast":
+            arr = strip_refs(arr.a[1])
+        if arr.k == "agg" and arr.a[0] == "array":
+            out = []
+            for x in arr.a[1]:
+                xs = strip_refs(x)
+                if is_const(xs, "str"):
+                    out.append(("lit", const_val(xs)))
+                else:
+                    out.append(("val", strip_refs_keep(x)))
+            return out
+        return None
     if name.endswith("Arguments::<'a>::from_str") or name.endswith("Arguments::<'_>::from_str"):
         s = strip_refs(e.a[1][0])
         if is_const(s, "str"):
@@ -88,7 +103,89 @@ def format_parts(body, e):
             if v >= len(vals):
                 return None
             out.append(("val", vals[v]))
+    return merge_literal_parts(out)
+
+
+def merge_literal_parts(parts):
+    """A constant string interpolated into a template is part of the literal text: fold it and merge neighbouring literals."""
+    out = []
+    for kind, v in parts:
+        if kind == "val":
+            c = strip_refs(v)
+            while c.k == "call" and len(c.a[1]) == 1 and any(c.a[0].endswith(s_) for s_ in ("::deref", "::as_str", "::as_ref", "::borrow")):
+                c = strip_refs(c.a[1][0])
+            if is_const(c, "str"):
+                kind, v = "lit", const_val(c)
+        if kind == "lit" and out and out[-1][0] == "lit":
+            out[-1] = ("lit", out[-1][1] + v)
+        else:
+            out.append((kind, v))
     return out
+
+
+def built_string_parts(body, op):
+    """A String assembled in place: `let mut s = first; s.push_str(x); s.push(c); …; s` — for the operand / local that is finally used,
+    returns [('val', E)|('lit', s)] = the initial value followed by everything appended, when the appends are totally ordered by dominance
+    (straight-line assembly) and the string is not otherwise borrowed mutably.  None if the value is not such a local."""
+    if isinstance(op, dict):
+        if op.get("k") == "const" or op["place"]["p"]:
+            return None
+        l = op["place"]["l"]
+    else:
+        l = op
+    # follow whole-local moves back to the String that is built
+    for _ in range(6):
+        wd = body.whole_defs(l)
+        if len(wd) == 1 and wd[0][2] == "assign" and wd[0][3]["rv"]["k"] == "use" and wd[0][3]["rv"]["op"]["k"] in ("move", "copy") \
+                and not wd[0][3]["rv"]["op"]["place"]["p"]:
+            l = wd[0][3]["rv"]["op"]["place"]["l"]
+            continue
+        break
+    if body.locals[l]["ty"] != "std::string::String":
+        return None
+    wd = body.whole_defs(l)
+    if len(wd) != 1:
+        return None
+    mutref = {}
+    for (i, j, st) in body.stmts():
+        if st["k"] == "assign" and not st["place"]["p"] and st["rv"]["k"] == "ref" and st["rv"].get("mut") and not st["rv"]["place"]["p"] and st["rv"]["place"]["l"] == l:
+            mutref[st["place"]["l"]] = i
+    apps = []
+    for (bb, t) in body.calls():
+        if not t["args"] or t["args"][0]["k"] == "const" or t["args"][0]["place"]["p"] or t["args"][0]["place"]["l"] not in mutref:
+            continue
+        n = callee_name(t)
+        if n.endswith("String::push_str") or n.endswith("String::push"):
+            apps.append((bb, t))
+        else:
+            return None                 # some other mutation: not a plain assembly
+    if not apps:
+        return None
+    apps.sort(key=lambda x: sum(1 for y in body.rblocks if body.dominates(y, x[0])))
+    for (a, _), (c, _) in zip(apps, apps[1:]):
+        if not body.dominates(a, c):
+            return None
+    if body.loops() and any(bb in body.loop_body(h, tl) for (bb, _) in apps for h, tl in body.loops().items()):
+        return None
+    d = wd[0]
+    if d[2] == "call":
+        first = E("call", callee_name(d[3]), tuple(body.expr_operand(a) for a in d[3]["args"]), d[0], t=d[3])
+    elif d[2] == "assign":
+        first = body.expr_rvalue(d[3]["rv"])
+    else:
+        return None
+    parts = []
+    f0 = strip_refs(first)
+    if not (f0.k == "call" and (f0.a[0].endswith("String::new") or f0.a[0].endswith("String::with_capacity"))):
+        parts.append(("val", first))
+    for (bb, t) in apps:
+        v = body.expr_operand(t["args"][1])
+        vs = strip_refs(v)
+        if is_const(vs, "str") or is_const(vs, "char"):
+            parts.append(("lit", const_val(vs)))
+        else:
+            parts.append(("val", strip_refs_keep(v)))
+    return parts
 
 
 def strip_refs_keep(e):
@@ -611,6 +708,31 @@ def contains_call(e, pred):
 # ---------------------------------------------------------------------------
 # length lower-bound dataflow for a Vec reached through a parameter (C02.R3, C15.R2 upper bound)
 
+def const_fold(e, depth=0):
+    """Integer value of an expression built from integer constants with + − × (also the `.0` of a checked operation); None otherwise."""
+    e = strip_refs(e)
+    if depth > 8:
+        return None
+    if is_const(e, "int"):
+        return const_val(e)
+    if e.k == "field" and str(e.a[1]) == "0" and strip_refs(e.a[0]).k == "bin":
+        return const_fold(e.a[0], depth + 1)
+    if e.k == "cast":
+        return const_fold(e.a[1], depth + 1)
+    if e.k == "bin":
+        op = e.a[0].replace("WithOverflow", "")
+        l, r = const_fold(e.a[1], depth + 1), const_fold(e.a[2], depth + 1)
+        if l is None or r is None:
+            return None
+        if op == "Add":
+            return l + r
+        if op == "Sub":
+            return l - r
+        if op == "Mul":
+            return l * r
+    return None
+
+
 class VecBounds:
     """Forward dataflow over one body tracking [lo, hi] bounds (lo in 0..2, hi in 0..CAP or INF) of the
     length of one container identified by (param index, field path).  Calls into local functions that
@@ -665,9 +787,9 @@ class VecBounds:
         if n.endswith("::extend") or n.endswith("::append") or n.endswith("::extend_from_slice"):
             return (lo, self.INF)
         if n.endswith("::truncate"):
-            c = strip_refs(args[1])
-            if is_const(c, "int"):
-                return (min(lo, const_val(c)), min(hi, const_val(c)))
+            cv = const_fold(args[1])
+            if cv is not None:
+                return (min(lo, cv), min(hi, cv))
             return (0, hi)
         if n.endswith("::dedup") or n.endswith("::dedup_by") or n.endswith("::dedup_by_key"):
             return (min(lo, 1), hi)
@@ -1091,7 +1213,7 @@ def known_switch_value(e):
     return None
 
 
-def sym_paths(body, start=0, limit=20000, env=None):
+def sym_paths(body, start=0, limit=20000, env=None, stops=()):
     """Acyclic normal paths start..return with the environment evaluated along the way; branches whose
     discriminant is statically known on the path are not split.  Yields (path [(bb, vals|None)], env, conds)
     with conds = [(discr E, vals, all_values, ty, bb)].  Raises PathLimit on loops / too many paths."""
@@ -1100,6 +1222,9 @@ def sym_paths(body, start=0, limit=20000, env=None):
     def rec(b, path, env, conds, onpath):
         if len(out) > limit:
             raise PathLimit("too many paths")
+        if b in stops and path:
+            out.append((path + [(b, None)], env, conds))
+            return
         if b in onpath:
             raise PathLimit("loop")
         env = body.eval_path([b], env)
